@@ -5,6 +5,7 @@ package main
 import (
 	"bufio"
 	"encoding/hex"
+	"errors"
 	"flag"
 	"fmt"
 	"math/rand"
@@ -12,6 +13,8 @@ import (
 	"path/filepath"
 	"strconv"
 	"strings"
+	"syscall"
+	"time"
 
 	"github.com/fsnotify/fsnotify"
 )
@@ -105,7 +108,7 @@ func main() {
 		_ = stT
 		for ops := 0; ops < 1<<9; ops++ {
 			for nf := 0; nf < 2; nf++ {
-				wt, err := fsnotify.NewWatcher()
+				wt, err := newW()
 				if err != nil {
 					panic(err)
 				}
@@ -141,7 +144,10 @@ func main() {
 			}
 		}
 		// 3. xSupports
-		wt, _ := fsnotify.NewWatcher()
+		wt, err := newW()
+		if err != nil {
+			panic(err)
+		}
 		for ops := 0; ops < 1<<10; ops++ {
 			fmt.Fprintf(w, "supports %d %v\n", ops, fsnotify.VerifSupports(wt, fsnotify.Op(ops)))
 		}
@@ -196,5 +202,17 @@ func main() {
 				}
 			}
 		}
+	}
+}
+
+// newW: EMFILE is the per-user limit on inotify instances, shared with every other process of this user; this process
+// holds one instance at a time, so wait for the environment
+func newW() (w *fsnotify.Watcher, err error) {
+	for deadline := time.Now().Add(120 * time.Second); ; {
+		w, err = fsnotify.NewWatcher()
+		if err == nil || !(errors.Is(err, syscall.EMFILE) || errors.Is(err, syscall.ENFILE)) || time.Now().After(deadline) {
+			return
+		}
+		time.Sleep(250 * time.Millisecond)
 	}
 }
